@@ -300,6 +300,8 @@ pub struct Inner {
     rng: Rng,
     // server -> client
     out: VecDeque<OutChunk>,
+    /// chunks popped by the deliverer that are waiting for their release time
+    in_transit: usize,
     avail: VecDeque<u8>,
     last_release: Instant,
     pub s2c_written: u64,
@@ -361,6 +363,7 @@ impl World {
             log: Vec::new(),
             rng,
             out: VecDeque::new(),
+            in_transit: 0,
             avail: VecDeque::new(),
             last_release: t0,
             s2c_written: 0,
@@ -494,7 +497,7 @@ impl World {
     /// Everything the server queued has been read by the client.
     pub fn all_output_delivered(&self) -> bool {
         let g = self.inner.lock().unwrap();
-        g.out.is_empty() && g.avail.is_empty() && g.s2c_delivered == g.s2c_written
+        g.out.is_empty() && g.in_transit == 0 && g.avail.is_empty() && g.s2c_delivered == g.s2c_written
     }
 
     pub fn close_server(&self) {
@@ -517,13 +520,18 @@ impl World {
                 if g.dropped {
                     return;
                 }
-                g.out.pop_front()
+                let c = g.out.pop_front();
+                if c.is_some() {
+                    g.in_transit += 1;
+                }
+                c
             };
             match next {
                 None => self.deliver_notify.notified().await,
                 Some(chunk) => {
                     tokio::time::sleep_until(chunk.release_at).await;
                     let mut g = self.inner.lock().unwrap();
+                    g.in_transit -= 1;
                     g.avail.extend(chunk.bytes);
                     if let Some(w) = g.read_waker.take() {
                         w.wake();
@@ -890,7 +898,7 @@ impl AsyncRead for SimIo {
             _ => {}
         }
         if limit == 0 {
-            if g.server_closed && g.avail.is_empty() && g.out.is_empty() {
+            if g.server_closed && g.avail.is_empty() && g.out.is_empty() && g.in_transit == 0 {
                 return Poll::Ready(Ok(())); // EOF after a server-side close
             }
             g.read_waker = Some(cx.waker().clone());
